@@ -89,6 +89,8 @@ class Interp:
         self.models = models
         self.loop_specs = {}
         self.loop_ordinals = {}
+        self.comp_ordinals = {}
+        self.comp_specs = {}
         self.ghost = {}
         self.nyield = 0
         self.old_frame = None
@@ -210,10 +212,23 @@ class Interp:
         if isinstance(a, Code) and isinstance(b, Code):
             return Code(zite(c, a.isname, b.isname), zite(c, a.name, b.name), zite(c, a.raw, b.raw))
         if isinstance(a, SRec) and isinstance(b, SRec):
-            # records of different kinds merge on their common fields (the others are not accessible)
-            common = [k for k in a.fields if k in b.fields]
-            return SRec({k: self.ite(c, a.fields[k], b.fields[k]) for k in common},
-                        a.kind if a.kind == b.kind else 'merged')
+            if a.kind == b.kind and a.tag is None and b.tag is None and set(a.fields) == set(b.fields):
+                return SRec({k: self.ite(c, a.fields[k], b.fields[k]) for k in a.fields}, a.kind)
+            # records of different classes merge into a tagged record: the class and the presence
+            # of each field follow the condition
+            fields, present = {}, {}
+            for k in list(a.fields) + [k for k in b.fields if k not in a.fields]:
+                if k in a.fields and k in b.fields:
+                    fields[k] = self.ite(c, a.fields[k], b.fields[k])
+                else:
+                    fields[k] = a.fields[k] if k in a.fields else b.fields[k]
+                pa, pb = a.has(k), b.has(k)
+                pr = pa if (pa is pb) else zite(c, pa, pb)
+                if pr is not True:
+                    present[k] = z3.simplify(pr) if is_sym(pr) else pr
+            same = a.tag is None and b.tag is None and a.kind == b.kind
+            return SRec(fields, a.kind if same else 'tagged',
+                        None if same else z3.If(c, a.tag_term(), b.tag_term()), present)
         if isinstance(a, tuple) and isinstance(b, tuple) and len(a) == len(b):
             return tuple(self.ite(c, x, y) for x, y in zip(a, b))
         if isinstance(a, SObj) and isinstance(b, SObj) and a.cls == b.cls and set(a.attrs) == set(b.attrs):
@@ -399,9 +414,56 @@ class Interp:
         blk = self._byte_block_comprehension(e, fr)
         if blk is not None:
             return blk
+        spec = self.comp_specs.get(self.comp_ordinals.get(id(e)))
+        if spec is not None:
+            r = self._map_comprehension(e, fr, spec)
+            if r is not None:
+                return r
         out = []
         self._comp_rec(e.generators, 0, Frame({}, fr), lambda f: out.append(self.ev(e.elt, f)))
         return out
+
+    def _map_comprehension(self, e, fr, spec):
+        """[body(x) for x in xs] over a symbolic-length sequence, under a `maps` clause of the
+        contract: the body is verified once for an arbitrary element (obligations map@line:i, with
+        `value` the body's result), and the continuation gets a list of the declared element shape
+        with the clauses assumed for every index.  Python semantics assumed: a comprehension
+        evaluates its body once per element, in order, and collects the results; the body must not
+        change state the continuation reads (its effects are not carried over)."""
+        if len(e.generators) != 1 or e.generators[0].ifs:
+            raise Unsupported('maps clause on a comprehension with filters or several generators')
+        g = e.generators[0]
+        it = self.ev(g.iter, fr)
+        if isinstance(it, SGen):
+            it = it.seq
+        if not isinstance(it, SList):
+            return None
+        n = to_int(it.n)
+        line = e.lineno
+        from .stmts import gsub
+        clauses = [gsub(x) for x in spec.get('ensures', [])]
+        if self.ctx.branch(self.ctx.const('mapcheck', z3.BoolSort())):
+            i = self.ctx.const('mi', IntS)
+            self.ctx.assume(z3.And(i >= 0, i < n))
+            f = Frame({}, fr)
+            self.assign(g.target, it.elem(i), f)
+            v = self.ev(e.elt, f)
+            for k, x in enumerate(clauses):
+                goal = self.as_goal(self.pure_eval(x, f, extra={'value': v, '_G_i': i}))
+                self.ctx.oblige(self.oname('map', line, k), goal, 'post', line)
+            raise PathEnd()
+        from .shapes import _StableNames
+        shape = spec['elem']
+        base = self.ctx.fname('map%d[]' % line)
+        mk = _StableNames(self.ctx)
+        res = SList(lambda j, base=base: shape.make(mk, base, to_int(j)), it.n, 'map%d' % line)
+        jv = z3.Int('j!map%d' % line)
+        f = Frame({}, fr)
+        self.assign(g.target, it.elem(jv), f)
+        for x in clauses:
+            body = self.as_goal(self.pure_eval(x, f, extra={'value': res.elem(jv), '_G_i': jv}))
+            self.ctx.assume(z3.ForAll([jv], z3.Implies(z3.And(jv >= 0, jv < n), body)))
+        return res
 
     def _byte_block_comprehension(self, e, fr):
         """[struct_parse(<one-byte unsigned struct>, stream) for _ in range(n)] with a symbolic n:
